@@ -119,8 +119,10 @@ func (d *Ledger) Inject(aw *world.AWorld) error {
 			g["BaseOperationCost"][k[2:]] = uint64(v)
 		}
 	}
-	w.Reprice(g)
-	w.Sched = world.CloneGas(g)
+	if canon(g) != canon(w.Sched) {
+		w.Reprice(g)
+		w.Sched = world.CloneGas(g)
+	}
 	w.Msgs = nil
 	for _, m := range aw.Msgs {
 		x := &world.Msg{ID: m.ID, From: d.addrOfName(m.From), To: d.addrOfName(m.To), Fn: m.Fn, Value: new(big.Int).Mul(big.NewInt(m.Val), d.Scale), Gas: uint64(m.Gas),
@@ -165,39 +167,33 @@ func InjectReplay(in string, t *world.Tracer, every int) (n, badInject, disagree
 	sc.Buffer(make([]byte, 1<<20), 1<<26)
 	cfg := world.Config{NShards: 2, Gas: MCGas(10, 1), EnableChange: false, Activation: 0}
 	addrs := world.StdAddrs(2)
+	w, e := world.New(cfg, addrs)
+	if e != nil {
+		return n, badInject, disagree, e
+	}
+	w.ConfirmEpoch(0)
 	for sc.Scan() {
 		var tr Trans
 		if e := json.Unmarshal(sc.Bytes(), &tr); e != nil {
 			return n, badInject, disagree, fmt.Errorf("transition %d: %v", n, e)
 		}
-		w, e := world.New(cfg, addrs)
-		if e != nil {
+		// one world is reused: Inject overwrites every account, the oracle, the schedule and the in-flight bag
+		d := &Ledger{W: w, R: rand.New(rand.NewSource(int64(n))), T: t, Scale: big.NewInt(1), Profile: "inject", TraceNo: n, Creator: map[string]string{}, Pending: map[string]bool{}}
+		d.P = &world.Proj{W: w, Scale: d.Scale}
+		if e := d.Inject(&tr.W); e != nil {
 			return n, badInject, disagree, e
 		}
 		// every transition is executed; only a sample (plus every disagreement) is written for TLC
 		keep := every <= 1 || n%every == 0
 		if !keep {
-			w.ConfirmEpoch(0)
-			dd := &Ledger{W: w, R: rand.New(rand.NewSource(int64(n))), Scale: big.NewInt(1), Profile: "inject", TraceNo: n, Creator: map[string]string{}, Pending: map[string]bool{}}
-			dd.P = &world.Proj{W: w, Scale: dd.Scale}
-			if e := dd.Inject(&tr.W); e != nil {
-				return n, badInject, disagree, e
-			}
-			if dd.quietResult(&tr.C) == tr.Res {
+			if d.quietResult(&tr.C) == tr.Res {
 				n++
 				continue
 			}
-			// disagreement: fall through and record it
-			w, e = world.New(cfg, addrs)
-			if e != nil {
+			// disagreement: inject again and record it
+			if e := d.Inject(&tr.W); e != nil {
 				return n, badInject, disagree, e
 			}
-		}
-		w.ConfirmEpoch(0)
-		d := &Ledger{W: w, R: rand.New(rand.NewSource(int64(n))), T: t, Scale: big.NewInt(1), Profile: "inject", TraceNo: n, Creator: map[string]string{}, Pending: map[string]bool{}}
-		d.P = &world.Proj{W: w, Scale: d.Scale}
-		if e := d.Inject(&tr.W); e != nil {
-			return n, badInject, disagree, e
 		}
 		n++
 		pw := d.P.World()
